@@ -12,9 +12,11 @@ VARIABLES l,        \* position in the trace
           aged,     \* handles that have survived at least one insertion since they were issued
           T,        \* physical state bound to the snapshot (trees)
           hasSnap, isSet,
-          peak, cap0
+          peak, cap0,
+          stale,    \* T is older than the previous event (that event shipped no snapshot)
+          gaps      \* some event since reset shipped no snapshot: the peak population is unknown
 
-vars == <<l, m, des, aged, T, hasSnap, isSet, peak, cap0>>
+vars == <<l, m, des, aged, T, hasSnap, isSet, peak, cap0, stale, gaps>>
 
 R == INSTANCE OrdRef
 
@@ -24,6 +26,8 @@ Has(f) == f \in DOMAIN Ev
 
 V(tag, cond, info) == IF cond THEN TRUE ELSE PrintT("VIOL " \o ToJson(<<tag, l, info>>))
 Breach(info)       == PrintT("BREACH " \o ToJson(<<l, info>>))
+\* diagnostic, never a verdict: the real arena differs from the layer-1 model's next state
+Drift(cond, info)  == IF cond THEN TRUE ELSE PrintT("DRIFT " \o ToJson(<<l, info>>))
 
 FromSnap(s) ==
   [root |-> s.root,
@@ -40,7 +44,7 @@ GrowthOK(TT, pk, c0) == Len(TT.nd) <= 4 * (pk + 1) + Max(c0, 8)
 Structure(TT, pk, c0) ==
   /\ V("WF", WellFormed(TT), "snapshot is not a valid red-black search tree")
   /\ V("POOL", PoolOK(TT), "slots are not partitioned into sentinel / tree / free list")
-  /\ V("GROWTH", GrowthOK(TT, pk, c0), <<"arena slots", Len(TT.nd), "peak stored", pk>>)
+  /\ (~gaps => V("GROWTH", GrowthOK(TT, pk, c0), <<"arena slots", Len(TT.nd), "peak stored", pk>>))
 
 Refines(TT, f) == RangeOK(TT) /\ Contents(TT) = Graph(f)
 \* lists: get_value of every key of the universe + is_empty; the returned value must carry its key
@@ -77,7 +81,7 @@ HandleResult(hasKey, key, tagH) ==
 
 After3(f, tagS, tagR) ==
   /\ V("OUTCOME", ~Has("obspanic") /\ ~Has("rdout"), "a look-up made right after the call (observation sweep / read through the returned handle) panicked")
-  /\ (hasSnap => /\ Structure(T', peak', cap0)
+  /\ (hasSnap /\ Has("snap") => /\ Structure(T', peak', cap0)
                  /\ V(tagR, Refines(T', f), <<"stored entries", IF RangeOK(T') THEN Contents(T') ELSE "unreadable", "reference", Graph(f)>>)
                  /\ V(tagS, SlotsOK(T', f, des'), <<"an issued handle no longer is the slot of its entry", des'>>))
   /\ (~hasSnap /\ Has("obs") => V(tagR, ObsOK(f), <<"observed", Ev.obs, Ev.oe, "reference", Graph(f)>>))
@@ -148,7 +152,7 @@ OpOk ==
     [] Ev.op = "clear" ->
          /\ m' = R!Empty /\ des' = R!Empty /\ aged' = {}
          /\ After(m')
-         /\ (hasSnap => /\ V("CLEARED", RangeOK(T') /\ Contents(T') = {}, "entries stored after clear")
+         /\ (hasSnap /\ Has("snap") => /\ V("CLEARED", RangeOK(T') /\ Contents(T') = {}, "entries stored after clear")
                         /\ V("POOLCLR", Len(T'.free) = Len(T'.nd) - 1, "clear did not return every slot to the free list"))
     [] OTHER -> Same /\ Breach(<<"unknown op", Ev.op>>)
 
@@ -166,27 +170,44 @@ OpUnwound ==
      /\ des' = IF Ev.op \in {"get", "fil", "filby"} THEN des ELSE R!Empty
      /\ aged' = IF Ev.op \in {"get", "fil", "filby"} THEN aged ELSE {}
      /\ V("TORN", isBefore \/ isAfter, <<"after a panic in callback", Ev.inj, "of", Ev.op, "contents are neither before nor after">>)
-     /\ (hasSnap => /\ V("TORNWF", WellFormed(T'), "tree invalid after a callback panic")
+     /\ (hasSnap /\ Has("snap") => /\ V("TORNWF", WellFormed(T'), "tree invalid after a callback panic")
                     /\ V("TORNPOOL", PoolOK(T'), "slot accounting broken after a callback panic"))
+
+\* EXACT mode: what the layer-1 model (RBArena) does for this call, slot for slot
+ModelNext ==
+  CASE Ev.op = "ins"   -> IF Ev.k \in KeysOf(T) THEN T ELSE Insert(T, Ev.k, Ev.v)
+    [] Ev.op = "del"   -> Delete(T, Ev.k)
+    [] Ev.op = "delh"  -> IF Ev.h \in Reach(T) THEN DeleteIndex(T, Ev.h) ELSE T
+    [] Ev.op = "write" -> IF Ev.h \in Reach(T) THEN [T EXCEPT !.nd[Ev.h + 1].v = Ev.v] ELSE T
+    [] Ev.op = "clear" -> Clear(T)
+    [] OTHER -> T                      \* read-only calls leave the arena untouched
+SameArena(A, B) == A.root = B.root /\ A.ucap = B.ucap /\ Len(A.nd) = Len(B.nd) /\ Len(A.free) = Len(B.free)
+                   /\ (\A i \in 1..Len(A.nd) : A.nd[i] = B.nd[i]) /\ (\A i \in 1..Len(A.free) : A.free[i] = B.free[i])
+DriftCheck ==
+  hasSnap /\ Has("snap") /\ ~stale /\ Ev.out = "ok" /\ WellFormed(T) /\ PoolOK(T)
+     => Drift(SameArena(ModelNext, T'), Ev.op)
 
 StepOp ==
   /\ T' = Bind
   /\ hasSnap' = hasSnap /\ isSet' = isSet /\ cap0' = cap0
+  /\ stale' = (hasSnap /\ ~Has("snap"))
+  /\ gaps' = (gaps \/ (hasSnap /\ ~Has("snap")))
   /\ peak' = NewPeak
+  /\ DriftCheck
   /\ CASE Ev.out = "ok" -> OpOk
        [] Ev.out = "unwound" -> OpUnwound
        [] OTHER -> /\ Same
                    /\ V("OUTCOME", FALSE, <<Ev.op, "ended with", Ev.out, IF Has("msg") THEN Ev.msg ELSE "">>)
 
 StepReset ==
-  /\ m' = R!Empty /\ des' = R!Empty /\ aged' = {} /\ peak' = 0 /\ cap0' = Ev.cap
+  /\ m' = R!Empty /\ des' = R!Empty /\ aged' = {} /\ peak' = 0 /\ cap0' = Ev.cap /\ stale' = FALSE /\ gaps' = FALSE
   /\ hasSnap' = Has("snap") /\ isSet' = (Ev.set = 1)
   /\ T' = IF Has("snap") THEN FromSnap(Ev.snap) ELSE NoTree
   /\ (Has("snap") => Structure(T', 0, Ev.cap) /\ V("CLEARED", RangeOK(T') /\ Contents(T') = {}, "a new tree stores entries"))
 
 StepLoad ==
   /\ T' = FromSnap(Ev.snap)
-  /\ hasSnap' = TRUE /\ isSet' = (Ev.set = 1) /\ cap0' = Ev.cap
+  /\ hasSnap' = TRUE /\ isSet' = (Ev.set = 1) /\ cap0' = Ev.cap /\ stale' = FALSE /\ gaps' = FALSE
   /\ m' = IF RangeOK(T') THEN FromGraph(Contents(T')) ELSE R!Empty
   /\ des' = R!Empty /\ aged' = {}
   /\ peak' = IF RangeOK(T') THEN Max(Count(T'), (Len(T'.nd) - Max(Ev.cap, 8)) \div 4) ELSE 0
@@ -198,10 +219,10 @@ Step ==
   /\ CASE Ev.ev = "reset" -> StepReset
        [] Ev.ev = "load"  -> StepLoad
        [] Ev.ev = "op"    -> StepOp
-       [] OTHER -> UNCHANGED <<m, des, aged, T, hasSnap, isSet, peak, cap0>> /\ Breach(<<"unknown event", Ev.ev>>)
+       [] OTHER -> UNCHANGED <<m, des, aged, T, hasSnap, isSet, peak, cap0, stale, gaps>> /\ Breach(<<"unknown event", Ev.ev>>)
 
 Init == /\ l = 1 /\ m = R!Empty /\ des = R!Empty /\ aged = {} /\ T = NoTree
-        /\ hasSnap = FALSE /\ isSet = FALSE /\ peak = 0 /\ cap0 = 0
+        /\ hasSnap = FALSE /\ isSet = FALSE /\ peak = 0 /\ cap0 = 0 /\ stale = FALSE /\ gaps = FALSE
 
 Spec == Init /\ [][Step]_vars
 
